@@ -71,7 +71,7 @@ theorem addSimplex_succeeds {c : C} {fs : List Name} {id : Name}
     (h5 : ∀ f ∈ fs, c.contains f = true) (h6 : ∀ f ∈ fs, c.orderOf? f = some (fs.length - 1 - 1))
     (h7 : ∀ s ∈ c.ofOrder (fs.length - 1), setEqB s.faces fs = false) :
     c.addSimplex fs id = .ok { c with simps :=
-      (insertSorted ⟨id, fs.length - 1, fs, dedupL (fs.flatMap c.basisOf)⟩ c.simps) } := by
+      (insertSorted ⟨id, fs.length - 1, canonFaces c (fs.length - 1) fs, canonBasis c fs⟩ c.simps) } := by
   unfold Cx.addSimplex
   simp only
   rw [if_neg h1, if_neg (by simp [h2]), if_neg (by simpa using h3), if_neg (by omega)]
